@@ -16,7 +16,7 @@ import (
 
 func wrap(t runtime.ScriggoType, v reflect.Value) reflect.Value {
 	return reflect.ValueOf(emptyInterfaceProxy{
-		value: v,
+		value: v.Interface(),
 		sign:  t,
 	})
 }
@@ -33,12 +33,19 @@ func unwrap(x runtime.ScriggoType, v reflect.Value) (reflect.Value, bool) {
 	if p.sign != x {
 		return reflect.Value{}, false
 	}
-	return p.value, true
+	// Return an addressable copy of the value.
+	v = reflect.New(x.GoType()).Elem()
+	v.Set(reflect.ValueOf(p.value))
+	return v, true
 }
 
 // emptyInterfaceProxy is a proxy for values of types that have an empty
 // method set.
+//
+// The value is stored as an interface value, and not as a reflect.Value, so
+// that two proxies with the same type and equal values are equal: they can be
+// compared and used as keys of a map as the values they stand for.
 type emptyInterfaceProxy struct {
-	value reflect.Value
+	value any
 	sign  runtime.ScriggoType
 }
